@@ -750,7 +750,7 @@ impl<'a> Run<'a> {
             // C05: finished children are gone by the time the call returns
             let done = std::mem::take(&mut x.done_this_call);
             for id in done {
-                if x.children[id as usize].dropped == 0 {
+                if x.children[id as usize].dropped == 0 && x.children[id as usize].tracked() {
                     x.violate(
                         p(5),
                         "C05/not-dropped-promptly",
@@ -1688,7 +1688,7 @@ impl<'a> Run<'a> {
         w(|x| {
             let mut leaked_children = Vec::new();
             for (i, c) in x.children.iter().enumerate() {
-                if c.dropped == 0 {
+                if c.dropped == 0 && c.tracked() {
                     leaked_children.push(i);
                 }
             }
